@@ -389,6 +389,101 @@ pub fn run_adaptkey() {
     });
 }
 
+/// A request/response exchange on ONE adapter (C17): the task writes a request, closes its write side (`poll_close`, which for this adapter
+/// is a flush), and then reads the peer's answer - which arrives only after the first read attempt found nothing.
+/// Output: wrote=<n> closed=<0|1> read=<bytes as text> finished=<0|1>
+struct CloseThenRead<'a> {
+    io: &'a mut calloop::io::Async<'static, UnixStream>,
+    stage: u8,
+    got: Vec<u8>,
+    out: Rc<RefCell<String>>,
+}
+impl Future for CloseThenRead<'_> {
+    type Output = ();
+    fn poll(mut self: Pin<&mut Self>, cx: &mut Context<'_>) -> Poll<()> {
+        loop {
+            let this = &mut *self;
+            match this.stage {
+                0 => match Pin::new(&mut *this.io).poll_write(cx, b"req") {
+                    Poll::Ready(Ok(n)) => {
+                        this.out.borrow_mut().push_str(&format!("wrote={} ", n));
+                        this.stage = 1;
+                    }
+                    Poll::Ready(Err(_)) => return Poll::Ready(()),
+                    Poll::Pending => return Poll::Pending,
+                },
+                1 => match Pin::new(&mut *this.io).poll_close(cx) {
+                    Poll::Ready(r) => {
+                        this.out.borrow_mut().push_str(&format!("closed={} ", r.is_ok() as u8));
+                        this.stage = 2;
+                    }
+                    Poll::Pending => return Poll::Pending,
+                },
+                _ => {
+                    let mut buf = [0u8; 8];
+                    match Pin::new(&mut *this.io).poll_read(cx, &mut buf) {
+                        Poll::Ready(Ok(k)) => {
+                            this.got.extend_from_slice(&buf[..k]);
+                            if this.got.len() >= 3 || k == 0 {
+                                let txt = String::from_utf8_lossy(&this.got).to_string();
+                                this.out.borrow_mut().push_str(&format!("read={} ", txt));
+                                return Poll::Ready(());
+                            }
+                        }
+                        Poll::Ready(Err(e)) => {
+                            this.out.borrow_mut().push_str(&format!("read=ERR({:?}) ", e.kind()));
+                            return Poll::Ready(());
+                        }
+                        Poll::Pending => return Poll::Pending,
+                    }
+                }
+            }
+        }
+    }
+}
+
+fn run_close_case(_line: &str) -> String {
+    use std::io::{Read, Write};
+    let mut event_loop: EventLoop<'static, ()> = EventLoop::try_new().expect("loop");
+    let handle = event_loop.handle();
+    let (exec, sched) = executor::<u8>().expect("executor");
+    let done = Rc::new(RefCell::new(0u8));
+    let d2 = done.clone();
+    handle.insert_source(exec, move |v, _, _| *d2.borrow_mut() = v).expect("insert");
+    let (ours, mut peer) = UnixStream::pair().expect("pair");
+    let mut a = handle.adapt_io(ours).expect("adapt");
+    let out = Rc::new(RefCell::new(String::new()));
+    let o2 = out.clone();
+    sched
+        .schedule(async move {
+            CloseThenRead { io: &mut a, stage: 0, got: vec![], out: o2 }.await;
+            7u8
+        })
+        .expect("schedule");
+    // the task writes, closes and parks in its first read; only then does the peer answer
+    for _ in 0..3 {
+        let _ = event_loop.dispatch(Some(Duration::ZERO), &mut ());
+    }
+    let mut req = [0u8; 3];
+    let _ = peer.read_exact(&mut req);
+    let _ = peer.write_all(b"abc");
+    let mut n = 0;
+    while *done.borrow() == 0 && n < 40 {
+        let _ = event_loop.dispatch(Some(Duration::from_millis(10)), &mut ());
+        n += 1;
+    }
+    let finished = *done.borrow() == 7;
+    let text = out.borrow().clone();
+    format!("{}finished={}", text, finished as u8)
+}
+
+pub fn run_close() {
+    crate::for_each_line(|l| {
+        let r = std::panic::catch_unwind(|| run_close_case(l)).unwrap_or_else(|_| "PANIC".to_string());
+        println!("{}", r);
+    });
+}
+
 pub fn run_dup() {
     crate::for_each_line(|l| {
         let r = std::panic::catch_unwind(|| run_dup_case(l)).unwrap_or_else(|_| "PANIC".to_string());
